@@ -5,6 +5,13 @@ pid=sys.argv[1]; variant=sys.argv[2] if len(sys.argv)>2 else "a"
 for l in open('/verif/properties.jsonl'):
     p=json.loads(l)
     if p['id']==pid: break
+import glob
+used=[]
+for d in sorted(glob.glob(f'/verif/seeded/{pid}*/meta.json')):
+    used.append(json.load(open(d))['needs_to_manifest'])
+avoid=""
+if variant not in ("a","b") and used:
+    avoid=" Earlier experiments already used the following ideas for this property; yours must be of a DIFFERENT kind, in a different function, and should target a clause of the property statement that these do not touch: " + " // ".join(f"({i+1}) {u}" for i,u in enumerate(used)) + "."
 wt=f"/tmp/seed-{pid}{variant}"
 out=f"/tmp/seed-out/{pid}{variant}"
 print(f"""You are helping to evaluate a verification effort by seeding ONE realistic bug into a Go code base.
@@ -20,7 +27,7 @@ It is meant to hold {p['quantifier']['text']}.
 Your task: make a small, realistic change to the non-test Go source in {wt} (the kind of mistake a maintainer could plausibly make in a refactor or optimisation) that BREAKS this property, while
   1. the repository still compiles, and
   2. the repository's existing test suite still passes, and
-  3. the bug does NOT show up under ordinary simple use: it must need something specific to manifest - a particular interleaving of concurrent calls, a fault or crash at a particular point, a multi-step sequence of operations, an unusual input/configuration, or two cooperating code sites that each look fine alone. Avoid changes that every request / every call would expose at once. Prefer a change in a DIFFERENT spot or of a different nature than the most obvious one (variant "{variant}": if a, pick what you judge most realistic; if b, pick something subtle in state/cursor/ordering logic or in an error/cleanup path).
+  3. the bug does NOT show up under ordinary simple use: it must need something specific to manifest - a particular interleaving of concurrent calls, a fault or crash at a particular point, a multi-step sequence of operations, an unusual input/configuration, or two cooperating code sites that each look fine alone. Avoid changes that every request / every call would expose at once. Prefer a change in a DIFFERENT spot or of a different nature than the most obvious one (variant "{variant}": if a, pick what you judge most realistic; if b, pick something subtle in state/cursor/ordering logic or in an error/cleanup path; if c or later, pick a clause of the property that is easy to overlook - a boundary value, an encoding or normalisation step, a rarely used option or field, an interaction between two features, a second code path that implements the same rule).{avoid}
 Do not edit or delete existing tests, do not add build tags, keep the diff small (ideally < 25 changed lines), no comments announcing the bug.
 
 Environment: the sandbox is offline. Before every go command: export GOFLAGS=-mod=mod GOPROXY=off GOSUMDB=off GOTOOLCHAIN=local . Default go is 1.23.5. The repo has two modules: {wt} and {wt}/staging/src/github.com/kubewharf/apiserver-runtime. Existing suite: (cd {wt} && go build ./... && go test -vet=off -count=1 ./...) and the same in the staging module (3 sub-tests of TestNewResourceREST_ToStorageMap in the staging module fail on the untouched tree too; ignore those). Put temporary files only under {wt} or {out}; set GOCACHE to the default.
